@@ -236,6 +236,17 @@ def r_resend(prog, R, rid="R-C06-RESEND"):
             else:
                 r.viol("badcookie-tcp-fallback", cv.name, cv.loc(cv.blocks[bid].term["ln"]),
                        "BADCOOKIE resends must fall back to TCP after at most 3 (threshold=%s via %s, sets_tcp=%s, dominates=%s)" % (eff, render(cc), sets, dom))
+    # the resend counter is monotone: nothing but increments may write it (a reset re-arms the un-budgeted resend)
+    nw = 0
+    for g, b, i, el, n, w in field_accesses(prog, "ares_query", "cookie_try_count"):
+        if w:
+            nw += 1
+            op = el["e"]["op"] if el["k"] == "asg" else "?"
+            if op in ("++",) or (op == "+=" and (const_val(el["e"].get("r")) or 0) > 0):
+                r.ok("cookie_try_count-monotone@%s" % g.name, g.loc(el))
+            else:
+                r.viol("cookie_try_count-monotone@%s" % g.name, g.name, g.loc(el), "query->cookie_try_count is written with '%s': resetting or lowering the bad-cookie resend counter removes the bound of three resends" % el["t"])
+    r.require(nw >= 1, "no writer of query->cookie_try_count found")
     lim = prog.macros.get("COOKIE_RESEND_MAX")
     if lim and lim["body"].strip() == "3":
         r.ok("COOKIE_RESEND_MAX=3", "src/lib/ares_cookie.c:%s" % lim["ln"], nontrivial=False)
